@@ -94,10 +94,42 @@ async def try_build(m):
                     async def on_field_execution(self, directive_args, next_resolver, parent, args, ctx, info):
                         return await next_resolver(parent, args, ctx, info)
             else:
-                @Directive(d["name"], schema_name=name)
-                class D2:           # pylint: disable=unused-variable
+                import functools
+                style = d.get("hook_style", "plain")
+
+                async def real(self, directive_args, next_resolver, parent, args, ctx, info):
+                    return await next_resolver(parent, args, ctx, info)
+                body = {}
+                if style == "plain":
                     def on_field_execution(self, directive_args, next_resolver, parent, args, ctx, info):
                         return None
+                    body["on_field_execution"] = on_field_execution
+                elif style == "wrapped":
+                    @functools.wraps(real)
+                    def on_field_execution(self, *a, **k):           # synchronous: calling it returns no awaitable
+                        return "not awaitable"
+                    body["on_field_execution"] = on_field_execution
+                elif style == "callable_object":
+                    class Hook:
+                        def __call__(self, *a, **k):
+                            return None
+                    body["on_field_execution"] = Hook()
+                elif style == "post_bake":
+                    def on_post_bake(self, element):
+                        return None
+                    body["on_post_bake"] = on_post_bake
+                    body["on_field_execution"] = real
+                elif style == "argument_execution":
+                    def on_argument_execution(self, *a, **k):
+                        return None
+                    body["on_argument_execution"] = on_argument_execution
+                elif style == "lambda":
+                    body["on_pre_output_coercion"] = lambda self, *a, **k: None
+                else:
+                    async def on_schema_subscription(self, *a, **k):    # a coroutine, not an async generator
+                        return None
+                    body["on_schema_subscription"] = on_schema_subscription
+                Directive(d["name"], schema_name=name)(type("D2", (), body))
         try:
             mk(d)
         except Exception:           # pylint: disable=broad-except
